@@ -14,7 +14,7 @@ def run(rep, tier, seed):
         rep.violation({'kind': 'proof-broken', 'log': pr['log'][-3000:], 'forbidden': pr['forbidden']}, suffix='no-failing-input-found')
     nh, nops = (32, 90) if tier == 'quick' else (1200, 300)
     import histgen
-    k2check.run_k2(rep, 'C14', tier, seed, 'c14', nh, nops, extra_histories=[histgen.straddle_history(40, 0), histgen.straddle_history(24, 1)] + histgen.corpus_histories())
+    k2check.run_k2(rep, 'C14', tier, seed, 'c14', nh, nops, extra_histories=[histgen.straddle_history(40, 0), histgen.straddle_history(24, 1), histgen.straddle_history(24, 2)] + histgen.corpus_histories())
     rep.cov['rule'] = RULES['C14'] + '; distinct_nontrivial = histories with >= 1 flush and >= 1 non-trivial compaction'
 
 def replay(rep, path):
